@@ -26,6 +26,7 @@ def run(ctx):
     ctx.rule("R14.h", "only edit_constant clears a constant flag: no other function of param/numbergen assigns `<parameter>.constant = False`", floor=1)
     ctx.rule("R14.i", "edit_constant restores the very Parameter objects it unlocked (by identity), not only whatever a by-name lookup finds on exit", floor=1)
     ctx.rule("R14.c", "Parameterized.name is declared constant; Parameter.__init__ sets constant whenever readonly is true", floor=2)
+    ctx.rule("R14.m", "setter model: Parameter.__set__ interpreted abstractly on every combination (576) of route x constant/readonly x validation outcome x identity x reference mode x watchers x batching agrees with the specification of this property (see checks/setter_model.py)", floor=1)
     ctx.not_decided += ["histories involving per-instance Parameter copies created earlier", "as_uninitialized (deliberately not armed, see C05 exclusions)"]
 
     f = ctx.repo.method(PARAMETER, "__set__")
@@ -248,3 +249,7 @@ def run(ctx):
                  "copies the inherited Parameter), the object that was unlocked -- the ancestor's Parameter -- stays constant=False for good",
                  key=ec_.qualname + "::restore-by-name-only",
                  input="class B(A) inherits constant x; with edit_constant(B()): B.x = 5  ->  A.param.x.constant is False afterwards")
+
+    # model-level rule, run last (see DESIGN §10)
+    from checks import setter_model
+    setter_model.report(ctx, "C14", "R14.m")
